@@ -18,8 +18,9 @@ open ColoVerif.Sched ColoVerif.Gen.Async
 /-- The extracted facts are the expected ones: both launches use `std::launch::async`; the bound
 objects are the addresses of two different members; the callee is a `const` member function; every
 further argument is passed by value; the launching thread joins both futures before the callback
-and does nothing else in between; no mutable static-storage object and no `mutable` member exists
-in the library. -/
+and executes no statement of unknown effect before the later of the two joins (what it does after
+both joins - the finiteness checks of the results - is sequential and stays in the protocol as
+`other` steps); no mutable static-storage object and no `mutable` member exists in the library. -/
 theorem async_facts :
     facts.callX.policyAsync = true ∧ facts.callY.policyAsync = true ∧
     facts.callX.boundIsAddressOfMember = true ∧ facts.callY.boundIsAddressOfMember = true ∧
